@@ -446,7 +446,7 @@ func c13IndexMachine() *machine {
 			}
 		}
 		d := ix.VerifIndexDump()
-		return fmt.Sprintf("%v|%s", kinds, dumpKey(d)) + fmt.Sprintf("|next=%d n=%d|reused:%s", d.NextID, d.NumShapes, reusedCreated), bad, obs
+		return fmt.Sprintf("%v|%s", kinds, dumpKey(d)) + fmt.Sprintf("|next=%d n=%d|reused:%s|deep:%s", d.NextID, d.NumShapes, reusedCreated, deepKey(ix, shapes, reused)), bad, obs
 	}
 	return m
 }
@@ -502,7 +502,7 @@ func c13LoopMachineAt(nv int, lat, lng float64) *machine {
 		d := l.VerifIndex().VerifIndexDump()
 		// the canonical key must cover every field of the implementation that a later answer can depend
 		// on: vertex order, origin flag, the cached bound, and the index state
-		return fmt.Sprintf("v0=%v inside=%v bound=%v|%s", l.Vertex(0), l.ContainsOrigin(), l.RectBound(), dumpKey(d)), bad, obs
+		return fmt.Sprintf("v0=%v inside=%v bound=%v|%s|deep:%s", l.Vertex(0), l.ContainsOrigin(), l.RectBound(), dumpKey(d), deepKey(l)), bad, obs
 	}
 	return m
 }
@@ -573,6 +573,7 @@ func c13PolygonMachine(variant int) *machine {
 		if ix := p.VerifIndex(); ix != nil {
 			sb.WriteString(dumpKey(ix.VerifIndexDump()))
 		}
+		sb.WriteString("|deep:" + deepKey(p))
 		return sb.String(), bad, obs
 	}
 	return m
